@@ -309,9 +309,14 @@ def _run_model(case, ctx):
             if any(ref_vals[i] is None for i in idx):
                 ctx.count("numeric_inverse", name + "/array-skipped")
                 continue
+            before = numpy.array(arg, dtype=float, copy=True)
             st, v = _call(fn, arg)
             ctx.case([name, dg, "array", label, kind])
             ctx.count("array_kinds", "%s/%s" % (label, kind))
+            if not numpy.array_equal(before, numpy.asarray(arg, dtype=float), equal_nan=True):
+                # evaluating a model must not write into the array it was given (the caller still holds it)
+                ctx.violation("%s.%s/writes-into-argument" % (name, label), "the model evaluation modified the array passed to it", P=P, kind=kind, before=before, after=numpy.asarray(arg, dtype=float))
+                continue
             if st != "ok":
                 if numeric and label == inv_name and _is_calc_error(v):
                     ctx.count("numeric_inverse", name + "/refused-array")
